@@ -9,6 +9,7 @@ import (
 	"errors"
 	"fmt"
 	"os"
+	"path/filepath"
 	"regexp"
 	"runtime"
 	"strings"
@@ -47,7 +48,7 @@ func (c *c04Case) probeCompact(onHit func(hit c04DumpHit)) error {
 			c.hook.release <- struct{}{}
 		case err := <-done:
 			c.hook.disarm()
-			if !c04CompactErrOK(err) {
+			if err != nil && c.compactErrClass(err) == "other" {
 				return err
 			}
 			return nil
@@ -256,7 +257,126 @@ func (c *c04Case) ownIndexerInsideIndexSince() bool {
 	return false
 }
 
+// (3) a synced flush of the indexer discards the first chunk of the node log while a dump that was taken when the
+// whole tree lived in that chunk has not read its nodes yet: Compact fails with EOF.  Then the oracle: the index still
+// holds the log, a later compaction works.
+func c04ProbeDumpDiscard(r *hx.Result) {
+	cfg := c04BaseCfg("compact-gate", "default", 1)
+	cfg.FlushThld, cfg.SyncThld = 1, 1 // every bulk is flushed and synced: flushTree discards unreferenced chunks
+	cfg.CacheSize = 1                  // the dump has to read its nodes from the node log
+	cfg.NodeSize = c04RequiredNodeSize(cfg.MaxKeyLen)
+	c := c04NewProbeCase(r, cfg, "dump-discard")
+	defer os.RemoveAll(c.dir)
+	defer func() {
+		if p := recover(); p != nil {
+			c.fail("C04:panic:compact-case", fmt.Sprintf("panic: %v", p))
+		}
+		if c.st != nil {
+			c.st.Close()
+		}
+	}()
+	if err := c.open(); err != nil {
+		c.fail("C04:harness:open", err.Error())
+		return
+	}
+	r.Count("compact.probe.dump-discard")
+	bail := func(err error) { c.fail("C04:harness:compact-case", "dump-discard probe: "+err.Error()) }
+	chunk0 := filepath.Join(c.idxPath(c.defs[0]), "nodes", "00000000.n")
+	size := func() int64 {
+		fi, err := os.Stat(chunk0)
+		if err != nil {
+			return -1
+		}
+		return fi.Size()
+	}
+	step := 0
+	upd := func() error {
+		step++
+		return c.commitOne(c04Tx{Ents: []c04Ent{ent(fmt.Sprintf("key-%02d", step%24), fmt.Sprintf("value-%06d-%s", step, strings.Repeat("x", 30)))}}, true)
+	}
+	// 1. fill the node log to about half of its first chunk (store FileSize = 64 KiB)
+	for size() < 28000 && step < 600 {
+		if err := upd(); err != nil {
+			bail(err)
+			return
+		}
+		if step%8 == 0 && !c.wait() {
+			return
+		}
+	}
+	if !c.wait() {
+		return
+	}
+	before := size()
+	c.op("FileSize=64KiB, FlushThld=SyncThld=1, MaxNodeSize=%d, cache 1: %d single-key txs over 24 keys committed and indexed; node log of the index = %d bytes, all in chunk 00000000.n", cfg.NodeSize, step, before)
+	// 2. the dump is held before it reads its first node
+	atomic.StoreInt32(&c.hook.atStart, 1)
+	atomic.StoreInt32(&c.hook.noDump, 1)
+	c.hook.arm(1, false, 0)
+	seen := r.Distribution["compact.result.dump-chunk-discarded"]
+	err := c.probeCompact(func(hit c04DumpHit) {
+		if hit.point != "dump-start" {
+			return
+		}
+		first := c.n + 1
+		for n := 0; n < 1500 && size() >= 0; n++ {
+			if err := upd(); err != nil {
+				c.op("commit failed: %v", err)
+				break
+			}
+			if n%8 == 7 {
+				ctx, cancel := context.WithTimeout(context.Background(), 5*time.Second)
+				c.st.WaitForIndexingUpto(ctx, c.n)
+				cancel()
+			}
+		}
+		ctx, cancel := context.WithTimeout(context.Background(), 5*time.Second)
+		c.st.WaitForIndexingUpto(ctx, c.n)
+		cancel()
+		c.op("dump of the snapshot held at the top of fullDump (before its first node read); txs %d..%d committed and indexed meanwhile: every leaf rewritten beyond 64 KiB, chunk 00000000.n removed by flushTree: %v; dump released", first, c.n, size() < 0)
+	})
+	atomic.StoreInt32(&c.hook.atStart, 0)
+	if err != nil {
+		c.fail(c04SigCompactErr, err.Error())
+		return
+	}
+	if r.Distribution["compact.result.dump-chunk-discarded"] == seen {
+		r.Count("compact.probe.dump-discard.not-observed")
+	}
+	c.collectCompactions(make([]uint64, len(c.defs)))
+	// 3. whatever the compaction answered: the index holds the log …
+	if !c.settle() {
+		return
+	}
+	if err := c.checkpoint(false); err != nil {
+		if err.Error() != "stuck" {
+			bail(err)
+		}
+		return
+	}
+	// 4. … and a later compaction works
+	if err := upd(); err != nil {
+		bail(err)
+		return
+	}
+	if !c.wait() {
+		return
+	}
+	if err := c.st.CompactIndexes(); err != nil && c04ErrClass(err) == "other" {
+		c.fail(c04SigCompactErr, fmt.Sprintf("CompactIndexes() (quiescent) after a compaction that had failed: %v", err))
+		return
+	}
+	c.op("tx %d committed; CompactIndexes() (quiescent) returned", c.n)
+	if !c.settle() {
+		return
+	}
+	if err := c.checkpoint(true); err != nil && err.Error() != "stuck" {
+		bail(err)
+	}
+}
+
 func c04CompactProbes(r *hx.Result) {
 	c04ProbeRestartRace(r)
 	c04ProbeIndexerGone(r)
+	c04ProbeDumpDiscard(r)
 }
